@@ -2,6 +2,7 @@ import SymVerif.Model.MpSpec
 import SymVerif.Model.MpBoost
 import SymVerif.Lemmas.C43Div
 import SymVerif.Lemmas.C43Gcd
+import SymVerif.Lemmas.C43GcdNorm
 import SymVerif.Lemmas.C43Root
 import SymVerif.Lemmas.C43PP
 import SymVerif.Lemmas.C43Powm
@@ -17,7 +18,8 @@ import SymVerif.Lemmas.C43Bin
             mirrored loop by loop (with the repairs D1–D8 of docs/C43.md applied; `MpBoost.Orig` keeps
             the unrepaired variants).
 
-Headline theorems: `MpBoost.f = MpSpec.f` for the division families, extended gcd (Bézout part),
+Headline theorems: `MpBoost.f = MpSpec.f` for the division families, extended gcd (Bézout identity and
+GMP's cofactor normalisation),
 modular inverse, modular powers, integer roots (Newton iteration), square roots, perfect squares and
 perfect powers, factorial / Fibonacci / Lucas / binomial, Jacobi / Legendre / Kronecker symbols (against
 Mathlib's `jacobiSym`); refutations of the unrepaired code on concrete witnesses.
@@ -54,10 +56,15 @@ theorem gcdext_spec_bezout (a b : Int) :
     a * (MpSpec.gcdext a b).2.1 + b * (MpSpec.gcdext a b).2.2 = (MpSpec.gcdext a b).1 :=
   spec_gcdext_bezout a b
 
-/-- The full statement for `mp_gcdext` — *the same cofactors as GMP*, on which e.g. `gcd_ext` results
-depend — is not proved; it is checked by the correspondence (exhaustively for `|a|,|b| ≤ 40` in the
-thorough tier, and on random 64–2000-bit arguments) and by the harness oracle `gcdext-norm`. -/
-def gcdext_full : Prop := ∀ a b : Int, MpBoost.gcdext a b = MpSpec.gcdext a b
+/-- the cofactor `s` of `mp_gcdext` lies in the window GMP documents: `2|s| < |b|/g`, or `2|s| = |b|/g`
+and `s` has the sign of `a` (loop invariants `|s_i||r_{i+1}| + |s_{i+1}||r_i| = |b|`, alternating signs, last
+quotient `≥ 2`) -/
+theorem gcdext_window (a b : Int) (hb : b ≠ 0) :
+    Window (b.natAbs / Int.gcd a b) a (MpBoost.gcdext a b).2.1 := boost_window a b hb
+
+/-- **`mp_gcdext` returns exactly the cofactors GMP documents** — the full statement, for all `a`, `b`
+(on which e.g. the results of `gcd_ext` depend). -/
+theorem gcdext (a b : Int) : MpBoost.gcdext a b = MpSpec.gcdext a b := boost_gcdext_full a b
 
 example : MpBoost.gcdext 240 (-46) = (2, -9, -47) ∧ MpSpec.gcdext 240 (-46) = (2, -9, -47) := by
   constructor <;> decide +kernel
